@@ -432,7 +432,19 @@ def f_anchor(case, obs):
     return bool(fails) and all(k is not None for _, k in fails) and any(k == "anchor" for _, k in fails)
 
 
-FINDING_PREDS = {"odd_key_path": f_escape, "anchor_path_matches_others": f_anchor}
+_UNICODE_BLANKS = "\u00a0\u0085\u1680\u2000\u2001\u2002\u2003\u2004\u2005\u2006\u2007\u2008\u2009\u200a\u2028\u2029\u202f\u205f\u3000"
+
+
+def f_unicode_blank(case, obs):
+    """F26b: the document holds a non-ASCII white-space character (a key made only of such characters is
+    stripped to nothing by the `original` setter's str.strip()).  The generators do not produce such
+    documents - the byte-string model of str.strip() knows ASCII white space only - so this predicate
+    only matters for hand-made replays."""
+    return any(ch in case[0] for ch in _UNICODE_BLANKS)
+
+
+FINDING_PREDS = {"odd_key_path": f_escape, "anchor_path_matches_others": f_anchor,
+                 "unicode_blank_key": f_unicode_blank}
 
 
 def classify(case, obs):
